@@ -57,6 +57,8 @@ def record(args):
             lo = max(lo, 2 * max(2, params["min_segment_length"]))
         n = lo + int(rng.choice([0, 0, 1, 2, 3, 7, 15, 30]))
         kind = int(rng.integers(0, 7))
+        if callable(params.get("collective_penalty")) and rng.integers(0, 3) > 0:
+            kind = 7   # dense but weak: the summed saving carries the anomaly, no single column does
         X = lattice_data(rng, max(n, 1), p, kind=kind)
         if np.all(X == np.round(X)) and rng.integers(0, 3) == 0:
             X = X.astype(np.int64)       # integer-typed input is valid input
